@@ -1,4 +1,5 @@
 import FqModel.C01Readers
+import FqModel.Gen.C01Consts
 /-!
   C01 — denotation of a reader composition (the bit string it stands for) and the
   "cursor over a bit list" specification machine.
@@ -45,8 +46,8 @@ def Buffer.WF (b : Buffer) : Prop := b.bufBits ≤ 8 * b.buf.length ∧ b.bitsOf
     the returned bits are exactly d[off, off+k) with k = r.n ≤ n, never beyond the logical end; EOF is
     reported only when the read ends at (or starts beyond) the logical end; without an error a non-empty
     request inside the data makes progress, and at / beyond the end a non-empty request reports an error
-    (so a caller that loops until it has enough bits terminates); the only other error is ErrOffset beyond
-    the end (zero reader) -/
+    (so a caller that loops until it has enough bits terminates), a non-empty request that lies completely
+    inside the data reports no error; the only other error is ErrOffset beyond the end (zero reader) -/
 structure SoundAt (d : Bits) (off n : Nat) (r : Res) : Prop where
   cnt : r.n = r.bits.length
   le : r.bits.length ≤ n
@@ -55,8 +56,79 @@ structure SoundAt (d : Bits) (off n : Nat) (r : Res) : Prop where
   eof : r.err = some .eof → d.length ≤ off + r.bits.length
   prog : r.err = none → 0 < n → off < d.length → r.bits ≠ []
   endErr : d.length ≤ off → 0 < n → r.err ≠ none
+  inside : 0 < n → off + n ≤ d.length → r.err = none
   errs : r.err = none ∨ r.err = some .eof ∨ (r.err = some .offset ∧ d.length < off ∧ r.bits = [])
   noq : r.q = 0
+
+/-! ### byte sources: what an io.ReadSeeker over `data` does -/
+
+/-- closed form of io.ReadFull(r, buf[0:k]) on a byte source standing at `p` -/
+def rawFullRes (data : List UInt8) (p k : Nat) (q : Nat) : Res :=
+  { n := (slice data p k).length, bytes := slice data p k,
+    err := if (slice data p k).length ≥ k then none
+           else if (slice data p k).length = 0 then some .eof else some .unexpectedEOF,
+    q := q }
+
+/-- `sub` behaves like an io.Reader over `data`: a state related to byte position `pos` by `I` answers a
+    Read of n > 0 bytes with EOF at the end, and otherwise with 1..n bytes of the data at `pos` -/
+def ReadsAt (sub : Sub) (data : List UInt8) (I : Rd → Nat → Prop) : Prop :=
+  ∀ s pos n, 0 < n → I s pos →
+    ∃ s' r, sub s (.readB n) = .ok (s', r) ∧ r.q = 0 ∧
+      ((data.length ≤ pos ∧ r.bytes = [] ∧ r.err = some .eof ∧ I s' pos) ∨
+       (pos < data.length ∧ ∃ k, 0 < k ∧ k ≤ n ∧ r.bytes = slice data pos k ∧ pos + k ≤ data.length ∧
+          r.err = none ∧ I s' (pos + k)))
+
+/-- target of Seek(o, w) at byte position `pos` of a source of `len` bytes -/
+def seekTarget (len pos : Nat) (o : Int) (w : Whence) : Int :=
+  match w with
+  | .start => o
+  | .current => (pos : Int) + o
+  | .end_ => (len : Int) + o
+
+/-- result of Seek on bytes.Reader: an error for a negative target, else the target -/
+def seekRes (T : Int) : Res := if T < 0 then { err := some .seek } else { n := T }
+
+/-- `sub` behaves like an io.ReadSeeker over `data` (bytes.Reader semantics of Seek) -/
+def ByteOK (sub : Sub) (data : List UInt8) (I : Rd → Nat → Prop) : Prop :=
+  ReadsAt sub data I ∧
+  ∀ s pos (o : Int) (w : Whence), I s pos →
+    ∃ s', sub s (.seekB o w) = .ok (s', seekRes (seekTarget data.length pos o w)) ∧
+      I s' (if seekTarget data.length pos o w < 0 then pos else (seekTarget data.length pos o w).toNat)
+
+/-- the logical position of a byte reader -/
+def bytePos : Rd → Nat
+  | .raw _ pos _ => pos
+  | .ahead _ _ off _ _ => off
+  | .progress b _ => bytePos b
+  | .ctx b => bytePos b
+  | _ => 0
+
+/-- invariant of aheadreadseeker.Reader over a source with content `data` standing at byte `p`:
+    cacheUsed > 0 → underlyingPos = cacheOffset + cacheUsed ∧ cache = data[cacheOffset, +cacheUsed) (∧ the
+    offset lies in or directly after the cache);  cacheUsed = 0 → underlyingPos = offset -/
+def AheadInv (data : List UInt8) (p off : Nat) (cache : List UInt8) (co : Nat) : Prop :=
+  (cache ≠ [] → p = co + cache.length ∧ cache = slice data co cache.length ∧ co ≤ off ∧ off ≤ co + cache.length) ∧
+  (cache = [] → p = off)
+
+/-- well-formed stack, of depth ≤ d, of the byte-side wrappers over a bytes.Reader / file: ctxreadseeker (live
+    context), progressreadseeker (partition size > 0), aheadreadseeker (minRead > 0, cache invariant) -/
+def ByteWF : Nat → Rd → Prop
+  | _+1, .raw _ _ _ => True
+  | d+1, .ctx b => ByteWF d b
+  | d+1, .progress b ps => 0 < ps ∧ ByteWF d b
+  | d+1, .ahead b m off cache co => 0 < m ∧ ByteWF d b ∧ AheadInv (denBy b) (bytePos b) off cache co
+  | _, _ => False
+
+def ByteAt (d : Nat) (data : List UInt8) (s : Rd) (pos : Nat) : Prop :=
+  ByteWF d s ∧ denBy s = data ∧ bytePos s = pos
+
+/-- the reader stack interp._open builds over a regular file (pkg/interp/binary.go:247-289), with the
+    constants regenerated from the source -/
+def openStackOn (leaf : Rd) (size : Nat) : Rd :=
+  newIOBits (.ahead (newProgress (.ctx leaf) Gen.C01Consts.progressPrecision size)
+    Gen.C01Consts.cacheReadAheadSize 0 [] 0)
+
+def openStack (data : List UInt8) : Rd := openStackOn (.raw data 0 true) data.length
 
 /-- readerEnds of NewMultiReader: the cumulative lengths of the sub-readers -/
 def cumEnds : List Rd → Nat → List Nat
@@ -64,13 +136,14 @@ def cumEnds : List Rd → Nat → List Nat
   | r :: rs, acc => (acc + (den r).length) :: cumEnds rs (acc + (den r).length)
 
 /-- well-formed composition, of nesting depth ≤ d, of the readers fq builds bit ranges from:
-    NewIOBitReadSeeker over a bytes.Reader / file (NewBitReader = a section of it), SectionReader inside its
-    source, MultiReader whose readerEnds are the cumulative lengths, ZeroReadAtSeeker -/
+    NewIOBitReadSeeker over a bytes.Reader / file, possibly through the ahead cache / progress / ctx wrappers
+    (NewBitReader = a section of it over a bytes.Reader; interp._open = the full stack), SectionReader inside
+    its source, MultiReader whose readerEnds are the cumulative lengths, ZeroReadAtSeeker -/
 def WFd : Nat → Rd → Prop
   | d+1, .sect r base off limit => WFd d r ∧ base ≤ off ∧ base ≤ limit ∧ limit ≤ (den r).length
   | d+1, .multi rs ends pos => (∀ r ∈ rs, WFd d r) ∧ ends = cumEnds rs 0 ∧ pos ≤ (denList rs).length
   | _+1, .zero pos n => pos ≤ n
-  | _+2, .ioBits (.raw _ _ _) bitPos _ => 0 ≤ bitPos
+  | d+1, .ioBits b bitPos _ => 0 ≤ bitPos ∧ ByteWF d b
   | _, _ => False
 
 /-- `sub` answers every ReadBitsAt on `r` (at a non-negative offset) correctly w.r.t. `den r`, and leaves a
@@ -184,14 +257,117 @@ def HistOK (D : Bits) : Nat → List (HOp × Outcome Res) → Prop
   | pos, (op, .ok res) :: rest => ∃ pos', CursorStep D pos op res pos' ∧ HistOK D pos' rest
   | _, _ :: _ => False
 
-/-! ### aheadreadseeker against bytes.Reader -/
+/-! ### specification machine for a bit reader directly over a byte string (no readers, no cache, no state but the
+    cursor and IOBitReadSeeker's scratch buffer): what `NewIOBitReadSeeker(rs)` does when `rs` is an ideal
+    io.ReadSeeker over `data` -/
 
-/-- invariant of aheadreadseeker.Reader over a bytes.Reader / file with content `data`:
-    cacheUsed > 0 → underlyingPos = cacheOffset + cacheUsed ∧ cache = data[cacheOffset, +cacheUsed) (∧ the
-    offset lies in or directly after the cache);  cacheUsed = 0 → underlyingPos = offset -/
-def AheadInv (data : List UInt8) (p off : Nat) (cache : List UInt8) (co : Nat) : Prop :=
-  (cache ≠ [] → p = co + cache.length ∧ cache = slice data co cache.length ∧ co ≤ off ∧ off ≤ co + cache.length) ∧
-  (cache = [] → p = off)
+/-- ReadBitsAt: (new scratch buffer, result) -/
+def bitsSpecReadAt (data buf : List UInt8) (n : Nat) (off : Int) : Outcome (List UInt8 × Res) :=
+  let T := off.tdiv 8
+  let skip := off.tmod 8
+  let W := bitsByteCountI (skip + n)
+  let B0 := if W > buf.length then List.replicate W 0 else buf
+  if T < 0 then .ok (B0, { err := some .seek })
+  else
+    let D := slice data T.toNat W
+    (ioBitsFinish (D ++ B0.drop D.length) skip n D.length (rawFullRes data T.toNat W 0).err 0).bind
+      fun res => .ok (D ++ B0.drop D.length, res)
+
+/-- SeekBits: (new bit position, result) -/
+def bitsSpecSeek (len : Nat) (bitPos : Int) (o : Int) (w : Whence) : Int × Res :=
+  let o' := if w = .current then o + bitPos else o
+  let w' := if w = .current then Whence.start else w
+  let T := seekTarget len 0 (o'.tdiv 8) w'
+  if T < 0 then (bitPos, { err := some .seek }) else (T * 8 + o'.tmod 8, { n := T * 8 + o'.tmod 8 })
+
+/-- state = (bit position, scratch buffer) -/
+def bitsSpecStep (data : List UInt8) (st : Int × List UInt8) : HOp → Outcome ((Int × List UInt8) × Res)
+  | .readAt n off => (bitsSpecReadAt data st.2 n off).bind fun x => .ok ((st.1, x.1), x.2)
+  | .read n => (bitsSpecReadAt data st.2 n st.1).bind fun x => .ok ((st.1 + x.2.n, x.1), x.2)
+  | .seek o w => .ok (((bitsSpecSeek data.length st.1 o w).1, st.2), (bitsSpecSeek data.length st.1 o w).2)
+  | .clone => .ok ((0, []), {})
+
+def runBitsSpecFrom (data : List UInt8) : (Int × List UInt8) → List HOp → List (HOp × Outcome Res)
+  | _, [] => []
+  | st, op :: ops =>
+    match bitsSpecStep data st op with
+    | .ok (st', res) => (op, .ok res) :: runBitsSpecFrom data st' ops
+    | .fault w => [(op, .fault w)]
+    | .hang => [(op, .hang)]
+    | .unsupported w => [(op, .unsupported w)]
+
+/-- the observations of a history on a fresh bit reader over the byte string `data` -/
+def runBitsSpec (data : List UInt8) (ops : List HOp) := runBitsSpecFrom data (0, []) ops
+
+/-! ### LimitReader histories: a cursor with a budget -/
+
+inductive LOp
+  | read (n : Nat)
+  | clone
+deriving Repr, DecidableEq
+
+def LOp.toOp : LOp → Op
+  | .read n => .read n
+  | .clone => .clone
+
+def runL (d : Nat) : Rd → List LOp → List (LOp × Outcome Res)
+  | _, [] => []
+  | s, op :: ops =>
+    match step d s op.toOp with
+    | .ok (s', res) => (op, .ok res) :: runL d s' ops
+    | .fault w => [(op, .fault w)]
+    | .hang => [(op, .hang)]
+    | .unsupported w => [(op, .unsupported w)]
+
+/-- LimitReader over a reader denoting D: every ReadBits returns the bits at the inner cursor, at most the
+    remaining budget `rem` (a short read of the inner reader — e.g. at a MultiReader boundary — consumes only
+    what was returned); CloneReader resets the cursor but KEEPS the remaining budget (limitreader.go:35) -/
+def LimitOK (D : Bits) : Nat → Nat → List (LOp × Outcome Res) → Prop
+  | _, _, [] => True
+  | pos, rem, (.read n, .ok res) :: rest =>
+    SoundAt (D.take (pos + rem)) pos n res ∧ res.bits.length ≤ rem ∧
+      LimitOK D (pos + res.bits.length) (rem - res.bits.length) rest
+  | _, rem, (.clone, .ok res) :: rest => res.err = none ∧ LimitOK D 0 rem rest
+  | _, _, _ :: _ => False
+
+/-- number of bits returned by the reads of a history -/
+def bitsReturned : List (LOp × Outcome Res) → Nat
+  | [] => 0
+  | (_, .ok res) :: rest => res.bits.length + bitsReturned rest
+  | _ :: rest => bitsReturned rest
+
+/-! ### bitio.Buffer as a FIFO of bits -/
+
+inductive BufOp
+  | write (p : List UInt8) (n : Nat)
+  | read (k : Nat)
+deriving Repr, DecidableEq
+
+/-- observations: for a read the bits returned (the first n bits of p) and the error -/
+def runBuf : Buffer → List BufOp → List (Outcome (Bits × Option Err))
+  | _, [] => []
+  | b, .write p n :: ops =>
+    match b.writeBits p n with
+    | .ok b' => .ok ([], none) :: runBuf b' ops
+    | .fault w => [.fault w]
+    | .hang => [.hang]
+    | .unsupported w => [.unsupported w]
+  | b, .read k :: ops =>
+    match b.readBits k with
+    | .ok (b', p, c, e) => .ok ((bytesToBits p).take c, e) :: runBuf b' ops
+    | .fault w => [.fault w]
+    | .hang => [.hang]
+    | .unsupported w => [.unsupported w]
+
+/-- the FIFO: `c` = the bits written and not yet read -/
+def bufSpec : Bits → List BufOp → List (Outcome (Bits × Option Err))
+  | _, [] => []
+  | c, .write p n :: ops => .ok ([], none) :: bufSpec (c ++ slice (bytesToBits p) 0 n) ops
+  | c, .read k :: ops =>
+    if c = [] then .ok ([], if k = 0 then none else some .eof) :: bufSpec [] ops
+    else .ok (c.take (min k c.length), none) :: bufSpec (c.drop (min k c.length)) ops
+
+/-! ### aheadreadseeker against bytes.Reader -/
 
 /-- byte-level operations whose results are determined by the data alone: io.ReadFull and Seek
     (a plain Read may legitimately return fewer bytes: see `ahead_read_prefix`) -/
